@@ -533,7 +533,10 @@ def live_case(m, kind):
         w.take()
         w.peer("D", None, tail_body(2, root))
         if len(w.c.delivered) != 1 or w.c.connection_state.name != "ACTIVE":
-            raise HarnessError("live warm-up: valid frame not delivered on a fresh session")
+            # not a harness problem: the endpoint cannot even take an undamaged frame
+            return _v("baseline", "valid_stream_not_decoded:live_warmup",
+                      {"delivered": len(w.c.delivered), "state": w.c.connection_state.name,
+                       "receive_buffer": len(msg_buffer(w.c))}, rep), "violation"
         before = len(w.c.delivered)
         seq = w.peer_seq
         w.feed(m)
@@ -732,7 +735,7 @@ def baseline(ctx):
             bad.append(("tail:" + label, b"".join(tail)))
     v, o = live_case(ST["crafted"][0][1], "crafted")
     if v is not None or not o.startswith("live_ok:nogap"):
-        bad.append(("live_valid:" + o, ST["crafted"][0][1]))
+        bad.append(("live_valid:" + (v["signature"] if v else o), ST["crafted"][0][1]))
     ctx.count(states=len(ST["corpus"]) + 3, traces=len(ST["corpus"]) + 3)
     for what, data in bad:
         ctx.violation("baseline|valid_stream_not_decoded:" + what.split(":")[0], CLAUSE["baseline"],
